@@ -71,4 +71,21 @@ theorem load_helper_loads_src : load_helper_loads = "Load" := by decide
 /-- `MatchByPrefix` hands all prefixes of the question to one `Hashes` call. -/
 theorem mbp_hashes_args_src : mbp_hashes_args = "hashPrefixes" := by decide
 
+/-- From the question to the host: `ri.Host` is `NormalizeDomain` of the question name (lower case,
+one final dot dropped: `normalizeDomain`), and the filters get exactly `ri.Host`. -/
+theorem normalize_domain_src : normalize_domain = "strings.ToLower(strings.TrimSuffix(fqdn, \".\"))" := by decide
+theorem ri_host_src : ri_host = "agdnet.NormalizeDomain(q.Name)" := by decide
+theorem flt_req_host_src : flt_req_host = "ri.Host" := by decide
+/-- Which list a client's switches bring in (`enabledLists`): safe browsing as a whole, then the
+dangerous-domains and the newly-registered filter each under its own switch; the adult filter under
+parental control; and the order in which the composite filter asks them. -/
+theorem set_sb_conds_src :
+    set_sb_conds = "!c.Enabled | c.DangerousDomainsEnabled | c.NewlyRegisteredDomainsEnabled" := by decide
+theorem set_sb_danger_src : set_sb_danger = "s.dangerous" := by decide
+theorem set_sb_newreg_src : set_sb_newreg = "s.newlyRegistered" := by decide
+theorem set_par_adult_src : set_par_adult = "s.adult" := by decide
+theorem composite_order_src : composite_order = "f.reqFilters, c.SafeBrowsing" := by decide
+theorem composite_order2_src : composite_order2 = "f.reqFilters, c.AdultBlocking" := by decide
+theorem composite_order5_src : composite_order5 = "f.reqFilters, c.NewRegisteredDomains" := by decide
+
 end Agd.Tie.C11
